@@ -565,3 +565,10 @@ func TestC17ReaderExhaustive(t *testing.T) {
 	rec1(0)
 	rec.SetExtra("reader_sequences_enumerated", count/nshards)
 }
+
+// genIndepSpec draws a valid frame with independent blocks (so that a concurrent Reader
+// really decodes concurrently), including empty and raw blocks.
+func genIndepSpec(t *rapid.T) *gen.FrameSpec {
+	spec := gen.DrawFrameSpec(t, gen.FrameParams{Dependent: 0, MaxBlocks: 12, MaxBlockLen: 60000})
+	return &spec
+}
